@@ -193,8 +193,8 @@ Lemma fq_flatten_rev_lines : forall ls, fq_flatten (rev ls) = concat ls.
 Proof. intros ls. unfold fq_flatten. rewrite rev'_rev, rev_involutive. reflexivity. Qed.
 
 Ltac fqsimp := unfold fq_out in *; cbn [q_st q_lineno q_offset q_last_offset q_last_obj q_xref q_stream_start q_stream_length q_xref_offset
-  q_f1 q_f2 q_xref_size q_ostream q_ooffs q_odisc q_oidx q_oid q_oext q_out fq_set_st fq_set_pos fq_set_offset fq_set_obj
-  fq_set_stream fq_set_xr fq_set_os fq_set_out fq_emit fq_simple fq_tail fq_table_written orb] in *.
+  q_f1 q_f2 q_xref_size q_ostream q_ooffs q_odisc q_oidx q_oid q_oext q_okept q_out fq_set_st fq_set_pos fq_set_offset fq_set_obj
+  fq_set_stream fq_set_xr fq_set_os fq_set_okept fq_set_out fq_emit fq_simple fq_tail fq_table_written orb] in *.
 
 (* a transition that appends `c` to the output, keeps the entries and stays among the simple states *)
 Lemma fq_inv_simple_append : forall st' out xref last_obj offset c (s' : fqs),
@@ -288,7 +288,7 @@ Lemma fq_step_inv : forall s line s',
 Proof.
   intros s line s' Hinv Hn1 Hn2 Hstep.
   pose proof Hinv as [Hst Hent Hlo Hsd Hoff Hkw Htab Hdn].
-  destruct s as [st lineno offset last_offset last_obj xref sstart slen xoff f1 f2 xsize ostream ooffs odisc oidx oid oext out].
+  destruct s as [st lineno offset last_offset last_obj xref sstart slen xoff f1 f2 xsize ostream ooffs odisc oidx oid oext okept out].
   unfold fq_step in Hstep. fqsimp.
   destruct st; simpl in Hst; try discriminate Hst; fqsimp.
   - (* top *)
@@ -559,7 +559,7 @@ Proof.
         inversion Ha as [|? ? [Hp1 Hp2] Ht]; subst.
         apply (IH s2 s1 Ht); [|eapply fq_step_inv; eassumption|exact Hr].
         pose proof Hi as [Hst0 _ _ _ _ _ _ _].
-        destruct s0 as [st lineno offset last_offset last_obj xref sstart slen xoff f1 f2 xsize ostream ooffs odisc oidx oid oext out].
+        destruct s0 as [st lineno offset last_offset last_obj xref sstart slen xoff f1 f2 xsize ostream ooffs odisc oidx oid oext okept out].
         unfold fq_step in E. fqsimp. subst f2.
         destruct st; simpl in Hst0; try discriminate Hst0; fqsimp;
           repeat match type of E with
@@ -574,7 +574,7 @@ Proof.
     eapply (G lines fq_init s Hall eq_refl fq_inv_init Hrun). }
   destruct Hf2 as [Hf2 _].
   specialize (Hoff ltac:(rewrite Hst; reflexivity)).
-  destruct s as [st lineno offset last_offset last_obj xref sstart slen xoff f1 f2 xsize ostream ooffs odisc oidx oid oext out].
+  destruct s as [st lineno offset last_offset last_obj xref sstart slen xoff f1 f2 xsize ostream ooffs odisc oidx oid oext okept out].
   unfold fq_step in Hstep. fqsimp. subst st f2. fqsimp.
   rewrite Hns, Hne, Hn1, Hx in Hstep.
   destruct xref as [|[hoff|a b] xt]; [discriminate | | discriminate].
@@ -603,26 +603,26 @@ Qed.
    except that the digits line becomes the exact number of data bytes (minus one per "%QDF: ignore_newline"
    line, not below zero), and `offset` stays the number of bytes written.
    ==================================================================================================== *)
-Ltac fqnorm := repeat (progress (unfold fq_emit, fq_set_st, fq_set_pos, fq_set_offset, fq_set_obj, fq_set_stream, fq_set_xr, fq_set_os, fq_set_out;
+Ltac fqnorm := repeat (progress (unfold fq_emit, fq_set_st, fq_set_pos, fq_set_offset, fq_set_obj, fq_set_stream, fq_set_xr, fq_set_os, fq_set_okept, fq_set_out;
   cbn [q_st q_lineno q_offset q_last_offset q_last_obj q_xref q_stream_start q_stream_length q_xref_offset
-       q_f1 q_f2 q_xref_size q_ostream q_ooffs q_odisc q_oidx q_oid q_oext q_out])).
+       q_f1 q_f2 q_xref_size q_ostream q_ooffs q_odisc q_oidx q_oid q_oext q_okept q_out])).
 
 Definition fq_dec_len (len : Z) (mid : list (list N)) : Z :=
   fold_left (fun a l => if fq_eqb l fqk_ignore_newline then (if 0 <? a then a - 1 else a) else a) mid len.
 
-Lemma fq_in_stream_loop : forall data lineno offset last_offset last_obj xref sstart slen xoff f1 f2 xsize ostream ooffs odisc oidx oid oext out,
+Lemma fq_in_stream_loop : forall data lineno offset last_offset last_obj xref sstart slen xoff f1 f2 xsize ostream ooffs odisc oidx oid oext okept out,
   Forall (fun l => fq_eqb l fqk_endstream_nl = false) data ->
   exists ln lo,
-    fq_run (mkfq Fq_in_stream lineno offset last_offset last_obj xref sstart slen xoff f1 f2 xsize ostream ooffs odisc oidx oid oext out) data
-    = inl (mkfq Fq_in_stream ln (offset + fq_len (concat data)) lo last_obj xref sstart slen xoff f1 f2 xsize ostream ooffs odisc oidx oid oext (rev data ++ out))
+    fq_run (mkfq Fq_in_stream lineno offset last_offset last_obj xref sstart slen xoff f1 f2 xsize ostream ooffs odisc oidx oid oext okept out) data
+    = inl (mkfq Fq_in_stream ln (offset + fq_len (concat data)) lo last_obj xref sstart slen xoff f1 f2 xsize ostream ooffs odisc oidx oid oext okept (rev data ++ out))
     /\ (data = [] -> lo = last_offset) /\ (data <> [] -> offset <= lo).
 Proof.
-  induction data as [|l t IH]; intros lineno offset last_offset last_obj xref sstart slen xoff f1 f2 xsize ostream ooffs odisc oidx oid oext out Hall.
+  induction data as [|l t IH]; intros lineno offset last_offset last_obj xref sstart slen xoff f1 f2 xsize ostream ooffs odisc oidx oid oext okept out Hall.
   - exists lineno, last_offset. cbn [fq_run concat rev app]. unfold fq_len at 1. cbn [length]. rewrite Z.add_0_r.
     split; [reflexivity|]. split; [reflexivity | intros H; contradiction].
   - inversion Hall as [|? ? Hl Ht]; subst.
     cbn [fq_run]. unfold fq_step. fqsimp. rewrite Hl. fqnorm.
-    destruct (IH (lineno + 1) (offset + fq_len l) offset last_obj xref sstart slen xoff f1 f2 xsize ostream ooffs odisc oidx oid oext (l :: out) Ht)
+    destruct (IH (lineno + 1) (offset + fq_len l) offset last_obj xref sstart slen xoff f1 f2 xsize ostream ooffs odisc oidx oid oext okept (l :: out) Ht)
       as [ln [lo [Hrun [He Hne]]]].
     exists ln, lo. rewrite Hrun. split.
     + cbn [concat rev]. rewrite fq_len_app, <- app_assoc, Z.add_assoc. reflexivity.
@@ -630,24 +630,24 @@ Proof.
       destruct t as [|x t']; [rewrite (He eq_refl); lia | specialize (Hne ltac:(discriminate)); lia].
 Qed.
 
-Lemma fq_after_stream_loop : forall mid lineno offset last_offset last_obj xref sstart slen xoff f1 f2 xsize ostream ooffs odisc oidx oid oext out,
+Lemma fq_after_stream_loop : forall mid lineno offset last_offset last_obj xref sstart slen xoff f1 f2 xsize ostream ooffs odisc oidx oid oext okept out,
   Forall (fun l => fq_match_n_0_obj l = None) mid ->
   exists ln lo,
-    fq_run (mkfq Fq_after_stream lineno offset last_offset last_obj xref sstart slen xoff f1 f2 xsize ostream ooffs odisc oidx oid oext out) mid
-    = inl (mkfq Fq_after_stream ln (offset + fq_len (concat mid)) lo last_obj xref sstart (fq_dec_len slen mid) xoff f1 f2 xsize ostream ooffs odisc oidx oid oext (rev mid ++ out)).
+    fq_run (mkfq Fq_after_stream lineno offset last_offset last_obj xref sstart slen xoff f1 f2 xsize ostream ooffs odisc oidx oid oext okept out) mid
+    = inl (mkfq Fq_after_stream ln (offset + fq_len (concat mid)) lo last_obj xref sstart (fq_dec_len slen mid) xoff f1 f2 xsize ostream ooffs odisc oidx oid oext okept (rev mid ++ out)).
 Proof.
-  induction mid as [|l t IH]; intros lineno offset last_offset last_obj xref sstart slen xoff f1 f2 xsize ostream ooffs odisc oidx oid oext out Hall.
+  induction mid as [|l t IH]; intros lineno offset last_offset last_obj xref sstart slen xoff f1 f2 xsize ostream ooffs odisc oidx oid oext okept out Hall.
   - exists lineno, last_offset. cbn [fq_run concat rev app fq_dec_len fold_left]. unfold fq_len at 1. cbn [length]. rewrite Z.add_0_r. reflexivity.
   - inversion Hall as [|? ? Hl Ht]; subst.
     cbn [fq_run]. unfold fq_step. fqsimp. unfold fq_dec_len. cbn [fold_left]. fold (fq_dec_len (if fq_eqb l fqk_ignore_newline then if 0 <? slen then slen - 1 else slen else slen) t).
     destruct (fq_eqb l fqk_ignore_newline).
     + destruct (0 <? slen); fqnorm.
-      * destruct (IH (lineno + 1) (offset + fq_len l) offset last_obj xref sstart (slen - 1) xoff f1 f2 xsize ostream ooffs odisc oidx oid oext (l :: out) Ht) as [ln [lo Hrun]].
+      * destruct (IH (lineno + 1) (offset + fq_len l) offset last_obj xref sstart (slen - 1) xoff f1 f2 xsize ostream ooffs odisc oidx oid oext okept (l :: out) Ht) as [ln [lo Hrun]].
         exists ln, lo. rewrite Hrun. cbn [concat rev]. rewrite fq_len_app, <- app_assoc, Z.add_assoc. reflexivity.
-      * destruct (IH (lineno + 1) (offset + fq_len l) offset last_obj xref sstart slen xoff f1 f2 xsize ostream ooffs odisc oidx oid oext (l :: out) Ht) as [ln [lo Hrun]].
+      * destruct (IH (lineno + 1) (offset + fq_len l) offset last_obj xref sstart slen xoff f1 f2 xsize ostream ooffs odisc oidx oid oext okept (l :: out) Ht) as [ln [lo Hrun]].
         exists ln, lo. rewrite Hrun. cbn [concat rev]. rewrite fq_len_app, <- app_assoc, Z.add_assoc. reflexivity.
     + rewrite Hl. fqnorm.
-      destruct (IH (lineno + 1) (offset + fq_len l) offset last_obj xref sstart slen xoff f1 f2 xsize ostream ooffs odisc oidx oid oext (l :: out) Ht) as [ln [lo Hrun]].
+      destruct (IH (lineno + 1) (offset + fq_len l) offset last_obj xref sstart slen xoff f1 f2 xsize ostream ooffs odisc oidx oid oext okept (l :: out) Ht) as [ln [lo Hrun]].
       exists ln, lo. rewrite Hrun. cbn [concat rev]. rewrite fq_len_app, <- app_assoc, Z.add_assoc. reflexivity.
 Qed.
 
@@ -657,25 +657,25 @@ Proof.
   cbn [app fq_run]. destruct (fq_step s l); [apply IH | reflexivity].
 Qed.
 
-Lemma fq_step_stream_kw : forall lineno offset last_offset last_obj xref sstart slen xoff f1 f2 xsize ostream ooffs odisc oidx oid oext out,
-  fq_step (mkfq Fq_in_obj lineno offset last_offset last_obj xref sstart slen xoff f1 f2 xsize ostream ooffs odisc oidx oid oext out) fqk_stream_nl
+Lemma fq_step_stream_kw : forall lineno offset last_offset last_obj xref sstart slen xoff f1 f2 xsize ostream ooffs odisc oidx oid oext okept out,
+  fq_step (mkfq Fq_in_obj lineno offset last_offset last_obj xref sstart slen xoff f1 f2 xsize ostream ooffs odisc oidx oid oext okept out) fqk_stream_nl
   = inl (mkfq Fq_in_stream (lineno + 1) (offset + fq_len fqk_stream_nl) offset last_obj xref (offset + fq_len fqk_stream_nl) slen xoff f1 f2 xsize
-              ostream ooffs odisc oidx oid oext (fqk_stream_nl :: out)).
+              ostream ooffs odisc oidx oid oext okept (fqk_stream_nl :: out)).
 Proof. intros. unfold fq_step. fqsimp. change (fq_eqb fqk_stream_nl fqk_stream_nl) with true. cbv iota. reflexivity. Qed.
 
-Lemma fq_step_endstream_kw : forall lineno offset last_offset last_obj xref sstart slen xoff f1 f2 xsize ostream ooffs odisc oidx oid oext out,
-  fq_step (mkfq Fq_in_stream lineno offset last_offset last_obj xref sstart slen xoff f1 f2 xsize ostream ooffs odisc oidx oid oext out) fqk_endstream_nl
+Lemma fq_step_endstream_kw : forall lineno offset last_offset last_obj xref sstart slen xoff f1 f2 xsize ostream ooffs odisc oidx oid oext okept out,
+  fq_step (mkfq Fq_in_stream lineno offset last_offset last_obj xref sstart slen xoff f1 f2 xsize ostream ooffs odisc oidx oid oext okept out) fqk_endstream_nl
   = inl (mkfq Fq_after_stream (lineno + 1) (offset + fq_len fqk_endstream_nl) offset last_obj xref sstart (offset - sstart) xoff f1 f2 xsize
-              ostream ooffs odisc oidx oid oext (fqk_endstream_nl :: out)).
+              ostream ooffs odisc oidx oid oext okept (fqk_endstream_nl :: out)).
 Proof. intros. unfold fq_step. fqsimp. change (fq_eqb fqk_endstream_nl fqk_endstream_nl) with true. cbv iota. reflexivity. Qed.
 
-Lemma fq_step_length_header : forall hdr d lineno offset last_offset last_obj xref sstart slen xoff f1 f2 xsize ostream ooffs odisc oidx oid oext out,
+Lemma fq_step_length_header : forall hdr d lineno offset last_offset last_obj xref sstart slen xoff f1 f2 xsize ostream ooffs odisc oidx oid oext okept out,
   fq_match_n_0_obj hdr = Some d -> Z.of_N (dec_value d) = last_obj + 1 -> last_obj + 1 <= 2147483647 ->
-  fq_step (mkfq Fq_after_stream lineno offset last_offset last_obj xref sstart slen xoff f1 f2 xsize ostream ooffs odisc oidx oid oext out) hdr
+  fq_step (mkfq Fq_after_stream lineno offset last_offset last_obj xref sstart slen xoff f1 f2 xsize ostream ooffs odisc oidx oid oext okept out) hdr
   = inl (mkfq Fq_in_length (lineno + 1) (offset + fq_len hdr) offset (last_obj + 1) (FqX1 offset :: xref) sstart slen xoff f1 f2 xsize
-              ostream ooffs odisc oidx oid oext (hdr :: out)).
+              ostream ooffs odisc oidx oid oext okept (hdr :: out)).
 Proof.
-  intros hdr d lineno offset last_offset last_obj xref sstart slen xoff f1 f2 xsize ostream ooffs odisc oidx oid oext out Hh Hv Hmax.
+  intros hdr d lineno offset last_offset last_obj xref sstart slen xoff f1 f2 xsize ostream ooffs odisc oidx oid oext okept out Hh Hv Hmax.
   unfold fq_step. fqsimp.
   assert (Hni : fq_eqb hdr fqk_ignore_newline = false).
   { destruct (fq_eqb hdr fqk_ignore_newline) eqn:E; [|reflexivity]. apply fq_eqb_eq in E. subst hdr. vm_compute in Hh. discriminate. }
@@ -684,11 +684,11 @@ Proof.
   rewrite Z.eqb_refl. reflexivity.
 Qed.
 
-Lemma fq_step_length_number : forall numline lineno offset last_offset last_obj xref sstart slen xoff f1 f2 xsize ostream ooffs odisc oidx oid oext out,
+Lemma fq_step_length_number : forall numline lineno offset last_offset last_obj xref sstart slen xoff f1 f2 xsize ostream ooffs odisc oidx oid oext okept out,
   fq_match_num numline = true ->
-  fq_step (mkfq Fq_in_length lineno offset last_offset last_obj xref sstart slen xoff f1 f2 xsize ostream ooffs odisc oidx oid oext out) numline
+  fq_step (mkfq Fq_in_length lineno offset last_offset last_obj xref sstart slen xoff f1 f2 xsize ostream ooffs odisc oidx oid oext okept out) numline
   = inl (mkfq Fq_top (lineno + 1) (offset + fq_len numline - fq_len numline + fq_len (fq_dec slen ++ fqk_nl)) offset last_obj xref sstart slen xoff f1 f2 xsize
-              ostream ooffs odisc oidx oid oext ((fq_dec slen ++ fqk_nl) :: out)).
+              ostream ooffs odisc oidx oid oext okept ((fq_dec slen ++ fqk_nl) :: out)).
 Proof. intros. unfold fq_step. fqsimp. rewrite H. reflexivity. Qed.
 
 (* stream / data / endstream / filler / "<k> 0 obj" / digits : copied through, the digits line becomes the exact
@@ -709,16 +709,16 @@ Lemma fixqdf_stream_length_lemma : forall s data mid hdr d numline,
     q_xref s' = FqX1 (q_offset s + fq_len (fqk_stream_nl ++ concat data ++ fqk_endstream_nl ++ concat mid)) :: q_xref s.
 Proof.
   intros s data mid hdr d numline Hst Hdata Hmid Hhdr Hv Hmax Hnum.
-  destruct s as [st lineno offset last_offset last_obj xref sstart slen xoff f1 f2 xsize ostream ooffs odisc oidx oid oext out].
+  destruct s as [st lineno offset last_offset last_obj xref sstart slen xoff f1 f2 xsize ostream ooffs odisc oidx oid oext okept out].
   cbn [q_st q_last_obj q_out q_offset q_xref] in *. subst st.
   cbn [app]. cbn [fq_run]. rewrite fq_step_stream_kw.
   rewrite fq_run_app.
   destruct (fq_in_stream_loop data (lineno + 1) (offset + fq_len fqk_stream_nl) offset last_obj xref (offset + fq_len fqk_stream_nl) slen
-              xoff f1 f2 xsize ostream ooffs odisc oidx oid oext (fqk_stream_nl :: out) Hdata) as [ln [lo [Hrun _]]].
+              xoff f1 f2 xsize ostream ooffs odisc oidx oid oext okept (fqk_stream_nl :: out) Hdata) as [ln [lo [Hrun _]]].
   rewrite Hrun. cbn [app]. cbn [fq_run]. rewrite fq_step_endstream_kw.
   rewrite fq_run_app.
-  match goal with |- context [fq_run (mkfq Fq_after_stream ?a ?b ?c ?d ?e ?f ?g ?h ?i ?j ?k ?l ?m ?n ?o ?p ?q ?r) mid] =>
-    destruct (fq_after_stream_loop mid a b c d e f g h i j k l m n o p q r Hmid) as [ln2 [lo2 Hrun2]] end.
+  match goal with |- context [fq_run (mkfq Fq_after_stream ?a ?b ?c ?d ?e ?f ?g ?h ?i ?j ?k ?l ?m ?n ?o ?p ?q ?r ?r2) mid] =>
+    destruct (fq_after_stream_loop mid a b c d e f g h i j k l m n o p q r r2 Hmid) as [ln2 [lo2 Hrun2]] end.
   rewrite Hrun2. cbn [fq_run].
   rewrite (fq_step_length_header hdr d) by assumption.
   rewrite fq_step_length_number by assumption.
@@ -764,19 +764,19 @@ Fixpoint fq_x2_entries (oid idx : Z) (n : nat) : list fq_xent :=      (* newest 
   end.
 
 Section OStreamSteps.
-Variables (sstart slen xoff : Z) (f1 f2 : N) (xsize : Z) (odisc : list (list N)) (oid : Z) (oext : list N) (out : list (list N)).
+Variables (sstart slen xoff : Z) (f1 f2 : N) (xsize : Z) (odisc : list (list N)) (oid : Z) (oext : list N) (okept : list (list N)) (out : list (list N)).
 
 Lemma mkfq_cong6 : forall st ln off off' lo lobj lobj' xref xref' ostream ostream' ooffs ooffs' oidx oidx',
   off = off' -> lobj = lobj' -> xref = xref' -> ostream = ostream' -> ooffs = ooffs' -> oidx = oidx' ->
-  mkfq st ln off lo lobj xref sstart slen xoff f1 f2 xsize ostream ooffs odisc oidx oid oext out
-  = mkfq st ln off' lo lobj' xref' sstart slen xoff f1 f2 xsize ostream' ooffs' odisc oidx' oid oext out.
+  mkfq st ln off lo lobj xref sstart slen xoff f1 f2 xsize ostream ooffs odisc oidx oid oext okept out
+  = mkfq st ln off' lo lobj' xref' sstart slen xoff f1 f2 xsize ostream' ooffs' odisc oidx' oid oext okept out.
 Proof. intros; subst; reflexivity. Qed.
 
 Lemma fq_step_member_header_obj : forall hdr d lineno offset last_offset last_obj xref ostream ooffs oidx,
   fq_match_ostream_obj hdr = Some d -> Z.of_N (dec_value d) = last_obj + 1 -> last_obj + 1 <= 2147483647 ->
-  fq_step (mkfq Fq_in_ostream_obj lineno offset last_offset last_obj xref sstart slen xoff f1 f2 xsize ostream ooffs odisc oidx oid oext out) hdr
+  fq_step (mkfq Fq_in_ostream_obj lineno offset last_offset last_obj xref sstart slen xoff f1 f2 xsize ostream ooffs odisc oidx oid oext okept out) hdr
   = inl (mkfq Fq_in_ostream_outer (lineno + 1) (offset + fq_len hdr) offset (last_obj + 1) (FqX1 offset :: xref) sstart slen xoff f1 f2 xsize
-              (hdr :: ostream) ooffs odisc oidx oid oext out).
+              (hdr :: ostream) ooffs odisc oidx oid oext okept out).
 Proof.
   intros hdr d lineno offset last_offset last_obj xref ostream ooffs oidx Hh Hv Hmax.
   unfold fq_step. fqsimp. rewrite Hh. unfold fq_check_obj_id. fqsimp. rewrite Hv.
@@ -785,17 +785,17 @@ Proof.
 Qed.
 
 Lemma fq_step_member_first : forall line lineno offset last_offset last_obj e xref ostream ooffs oidx,
-  fq_step (mkfq Fq_in_ostream_outer lineno offset last_offset last_obj (e :: xref) sstart slen xoff f1 f2 xsize ostream ooffs odisc oidx oid oext out) line
+  fq_step (mkfq Fq_in_ostream_outer lineno offset last_offset last_obj (e :: xref) sstart slen xoff f1 f2 xsize ostream ooffs odisc oidx oid oext okept out) line
   = inl (mkfq Fq_in_ostream_obj (lineno + 1) (offset + fq_len line) offset last_obj (FqX2 oid oidx :: xref) sstart slen xoff f1 f2 xsize
-              (line :: ostream) ((offset - sstart) :: ooffs) odisc (oidx + 1) oid oext out).
+              (line :: ostream) ((offset - sstart) :: ooffs) odisc (oidx + 1) oid oext okept out).
 Proof. intros. unfold fq_step. fqsimp. unfold fq_adjust_ostream_xref. fqsimp. reflexivity. Qed.
 
 Lemma fq_member_rest_loop : forall rest lineno offset last_offset last_obj xref ostream ooffs oidx,
   Forall (fun l => fq_match_ostream_obj l = None /\ fq_eqb l fqk_endstream_nl = false) rest ->
   exists ln lo,
-    fq_run (mkfq Fq_in_ostream_obj lineno offset last_offset last_obj xref sstart slen xoff f1 f2 xsize ostream ooffs odisc oidx oid oext out) rest
+    fq_run (mkfq Fq_in_ostream_obj lineno offset last_offset last_obj xref sstart slen xoff f1 f2 xsize ostream ooffs odisc oidx oid oext okept out) rest
     = inl (mkfq Fq_in_ostream_obj ln (offset + fq_len (concat rest)) lo last_obj xref sstart slen xoff f1 f2 xsize
-                (rev rest ++ ostream) ooffs odisc oidx oid oext out).
+                (rev rest ++ ostream) ooffs odisc oidx oid oext okept out).
 Proof.
   induction rest as [|l t IH]; intros lineno offset last_offset last_obj xref ostream ooffs oidx Hall.
   - exists lineno, last_offset. cbn [fq_run concat rev app]. unfold fq_len at 1. cbn [length]. rewrite Z.add_0_r. reflexivity.
@@ -809,12 +809,12 @@ Qed.
 Lemma fq_members_loop : forall ms lineno offset last_offset last_obj xref ostream ooffs oidx,
   fq_members_ok (last_obj + 1) ms -> last_obj + Z.of_nat (length ms) <= 2147483647 ->
   exists ln lo,
-    fq_run (mkfq Fq_in_ostream_obj lineno offset last_offset last_obj xref sstart slen xoff f1 f2 xsize ostream ooffs odisc oidx oid oext out)
+    fq_run (mkfq Fq_in_ostream_obj lineno offset last_offset last_obj xref sstart slen xoff f1 f2 xsize ostream ooffs odisc oidx oid oext okept out)
            (concat (map m_lines ms))
     = inl (mkfq Fq_in_ostream_obj ln (offset + fq_len (concat (concat (map m_lines ms)))) lo (last_obj + Z.of_nat (length ms))
                 (fq_x2_entries oid oidx (length ms) ++ xref) sstart slen xoff f1 f2 xsize
                 (rev (concat (map m_lines ms)) ++ ostream) (rev (m_positions (offset - sstart) ms) ++ ooffs) odisc
-                (oidx + Z.of_nat (length ms)) oid oext out).
+                (oidx + Z.of_nat (length ms)) oid oext okept out).
 Proof.
   induction ms as [|m t IH]; intros lineno offset last_offset last_obj xref ostream ooffs oidx Hok Hmax.
   - exists lineno, last_offset. cbn [map concat fq_run rev app length fq_x2_entries m_positions]. unfold fq_len at 1. cbn [length].
@@ -876,65 +876,81 @@ Proof. reflexivity. Qed.
 Definition fq_ext_of (dict : list (list N)) (e0 : list N) : list N :=
   fold_left (fun e l => match fq_match_extends l with Some m => m | None => e end) dict e0.
 
-Lemma fq_ostream_dict_loop : forall dict lineno offset last_offset last_obj xref sstart slen xoff f1 f2 xsize ostream ooffs odisc oidx oid oext out,
+(* the lines of the old dictionary text that come back verbatim (fix C17-F5): neither an /Extends line (re_extends)
+   nor one of the lines writeOstream() writes itself (/Length, /N, /First, ">>") *)
+Definition fq_keeps (l : list N) : bool :=
+  match fq_match_extends l with Some _ => false | None => negb (fq_is_regenerated l) end.
+Definition fq_kept_of (dict : list (list N)) : list (list N) := filter fq_keeps dict.
+
+Lemma fq_ostream_dict_loop : forall dict lineno offset last_offset last_obj xref sstart slen xoff f1 f2 xsize ostream ooffs odisc oidx oid oext okept out,
   Forall (fun l => fq_eqb l fqk_stream_nl = false) dict ->
   exists ln lo,
-    fq_run (mkfq Fq_in_ostream_dict lineno offset last_offset last_obj xref sstart slen xoff f1 f2 xsize ostream ooffs odisc oidx oid oext out) dict
+    fq_run (mkfq Fq_in_ostream_dict lineno offset last_offset last_obj xref sstart slen xoff f1 f2 xsize ostream ooffs odisc oidx oid oext okept out) dict
     = inl (mkfq Fq_in_ostream_dict ln (offset + fq_len (concat dict)) lo last_obj xref sstart slen xoff f1 f2 xsize ostream ooffs
-                (rev dict ++ odisc) oidx oid (fq_ext_of dict oext) out).
+                (rev dict ++ odisc) oidx oid (fq_ext_of dict oext) (rev (fq_kept_of dict) ++ okept) out).
 Proof.
-  induction dict as [|l t IH]; intros lineno offset last_offset last_obj xref sstart slen xoff f1 f2 xsize ostream ooffs odisc oidx oid oext out Hall.
-  - exists lineno, last_offset. cbn [fq_run concat rev app fq_ext_of fold_left]. unfold fq_len at 1. cbn [length]. rewrite Z.add_0_r. reflexivity.
+  induction dict as [|l t IH]; intros lineno offset last_offset last_obj xref sstart slen xoff f1 f2 xsize ostream ooffs odisc oidx oid oext okept out Hall.
+  - exists lineno, last_offset. cbn [fq_run concat rev app fq_ext_of fold_left fq_kept_of filter]. unfold fq_len at 1. cbn [length]. rewrite Z.add_0_r. reflexivity.
   - inversion Hall as [|? ? Hl Ht]; subst.
-    cbn [fq_run]. unfold fq_step. fqsimp. rewrite Hl. fqnorm.
-    destruct (IH (lineno + 1) (offset + fq_len l) offset last_obj xref sstart slen xoff f1 f2 xsize ostream ooffs (l :: odisc) oidx oid
-                 (match fq_match_extends l with Some m => m | None => oext end) out Ht) as [ln [lo Hrun]].
-    exists ln, lo. rewrite Hrun. cbn [concat rev fq_ext_of fold_left]. rewrite fq_len_app, <- app_assoc, Z.add_assoc. reflexivity.
+    cbn [fq_run]. unfold fq_step. fqsimp. rewrite Hl.
+    unfold fq_kept_of. cbn [filter]. unfold fq_keeps at 1. fold (fq_kept_of t).
+    destruct (fq_match_extends l) as [mm|] eqn:Em.
+    + fqnorm.
+      destruct (IH (lineno + 1) (offset + fq_len l) offset last_obj xref sstart slen xoff f1 f2 xsize ostream ooffs (l :: odisc) oidx oid
+                   mm okept out Ht) as [ln [lo Hrun]].
+      exists ln, lo. rewrite Hrun. cbn [concat rev fq_ext_of fold_left]. rewrite Em. rewrite fq_len_app, <- app_assoc, Z.add_assoc. reflexivity.
+    + destruct (fq_is_regenerated l) eqn:Er; cbn [negb]; fqnorm.
+      * destruct (IH (lineno + 1) (offset + fq_len l) offset last_obj xref sstart slen xoff f1 f2 xsize ostream ooffs (l :: odisc) oidx oid
+                     oext okept out Ht) as [ln [lo Hrun]].
+        exists ln, lo. rewrite Hrun. cbn [concat rev fq_ext_of fold_left]. rewrite Em. rewrite fq_len_app, <- app_assoc, Z.add_assoc. reflexivity.
+      * destruct (IH (lineno + 1) (offset + fq_len l) offset last_obj xref sstart slen xoff f1 f2 xsize ostream ooffs (l :: odisc) oidx oid
+                     oext (l :: okept) out Ht) as [ln [lo Hrun]].
+        exists ln, lo. rewrite Hrun. cbn [concat rev fq_ext_of fold_left]. rewrite Em. rewrite fq_len_app, <- !app_assoc, Z.add_assoc. reflexivity.
 Qed.
 
-Lemma fq_ostream_junk_loop : forall junk lineno offset last_offset last_obj xref sstart slen xoff f1 f2 xsize ostream ooffs odisc oidx oid oext out,
+Lemma fq_ostream_junk_loop : forall junk lineno offset last_offset last_obj xref sstart slen xoff f1 f2 xsize ostream ooffs odisc oidx oid oext okept out,
   Forall (fun l => fq_match_ostream_obj l = None) junk ->
   exists ln lo,
-    fq_run (mkfq Fq_in_ostream_offsets lineno offset last_offset last_obj xref sstart slen xoff f1 f2 xsize ostream ooffs odisc oidx oid oext out) junk
+    fq_run (mkfq Fq_in_ostream_offsets lineno offset last_offset last_obj xref sstart slen xoff f1 f2 xsize ostream ooffs odisc oidx oid oext okept out) junk
     = inl (mkfq Fq_in_ostream_offsets ln (offset + fq_len (concat junk)) lo last_obj xref sstart slen xoff f1 f2 xsize ostream ooffs
-                (rev junk ++ odisc) oidx oid oext out).
+                (rev junk ++ odisc) oidx oid oext okept out).
 Proof.
-  induction junk as [|l t IH]; intros lineno offset last_offset last_obj xref sstart slen xoff f1 f2 xsize ostream ooffs odisc oidx oid oext out Hall.
+  induction junk as [|l t IH]; intros lineno offset last_offset last_obj xref sstart slen xoff f1 f2 xsize ostream ooffs odisc oidx oid oext okept out Hall.
   - exists lineno, last_offset. cbn [fq_run concat rev app]. unfold fq_len at 1. cbn [length]. rewrite Z.add_0_r. reflexivity.
   - inversion Hall as [|? ? Hl Ht]; subst.
     cbn [fq_run]. unfold fq_step. fqsimp. rewrite Hl. fqnorm.
-    destruct (IH (lineno + 1) (offset + fq_len l) offset last_obj xref sstart slen xoff f1 f2 xsize ostream ooffs (l :: odisc) oidx oid oext out Ht) as [ln [lo Hrun]].
+    destruct (IH (lineno + 1) (offset + fq_len l) offset last_obj xref sstart slen xoff f1 f2 xsize ostream ooffs (l :: odisc) oidx oid oext okept out Ht) as [ln [lo Hrun]].
     exists ln, lo. rewrite Hrun. cbn [concat rev]. rewrite fq_len_app, <- app_assoc, Z.add_assoc. reflexivity.
 Qed.
 
-Lemma fq_step_objstm_type_line : forall tyline lineno offset last_offset last_obj xref sstart slen xoff f1 f2 xsize ostream ooffs odisc oidx oid oext out,
+Lemma fq_step_objstm_type_line : forall tyline lineno offset last_offset last_obj xref sstart slen xoff f1 f2 xsize ostream ooffs odisc oidx oid oext okept out,
   fq_eqb tyline fqk_stream_nl = false -> fq_eqb tyline fqk_endobj_nl = false -> fq_is_type_line tyline fqk_type_objstm = true ->
-  fq_step (mkfq Fq_in_obj lineno offset last_offset last_obj xref sstart slen xoff f1 f2 xsize ostream ooffs odisc oidx oid oext out) tyline
+  fq_step (mkfq Fq_in_obj lineno offset last_offset last_obj xref sstart slen xoff f1 f2 xsize ostream ooffs odisc oidx oid oext okept out) tyline
   = inl (mkfq Fq_in_ostream_dict (lineno + 1) (offset + fq_len tyline) offset last_obj xref sstart slen xoff f1 f2 xsize ostream ooffs odisc oidx
-              last_obj oext (tyline :: out)).
+              last_obj oext okept (tyline :: out)).
 Proof. intros. unfold fq_step. fqsimp. rewrite H, H0, H1. reflexivity. Qed.
 
-Lemma fq_step_ostream_stream_kw : forall lineno offset last_offset last_obj xref sstart slen xoff f1 f2 xsize ostream ooffs odisc oidx oid oext out,
-  fq_step (mkfq Fq_in_ostream_dict lineno offset last_offset last_obj xref sstart slen xoff f1 f2 xsize ostream ooffs odisc oidx oid oext out) fqk_stream_nl
-  = inl (mkfq Fq_in_ostream_offsets (lineno + 1) (offset + fq_len fqk_stream_nl) offset last_obj xref sstart slen xoff f1 f2 xsize ostream ooffs odisc oidx oid oext out).
+Lemma fq_step_ostream_stream_kw : forall lineno offset last_offset last_obj xref sstart slen xoff f1 f2 xsize ostream ooffs odisc oidx oid oext okept out,
+  fq_step (mkfq Fq_in_ostream_dict lineno offset last_offset last_obj xref sstart slen xoff f1 f2 xsize ostream ooffs odisc oidx oid oext okept out) fqk_stream_nl
+  = inl (mkfq Fq_in_ostream_offsets (lineno + 1) (offset + fq_len fqk_stream_nl) offset last_obj xref sstart slen xoff f1 f2 xsize ostream ooffs odisc oidx oid oext okept out).
 Proof. intros. unfold fq_step. fqsimp. change (fq_eqb fqk_stream_nl fqk_stream_nl) with true. cbv iota. reflexivity. Qed.
 
-Lemma fq_step_first_member_header : forall hdr d lineno offset last_offset last_obj xref sstart slen xoff f1 f2 xsize ostream ooffs odisc oidx oid oext out,
+Lemma fq_step_first_member_header : forall hdr d lineno offset last_offset last_obj xref sstart slen xoff f1 f2 xsize ostream ooffs odisc oidx oid oext okept out,
   fq_match_ostream_obj hdr = Some d -> Z.of_N (dec_value d) = last_obj + 1 -> last_obj + 1 <= 2147483647 ->
-  fq_step (mkfq Fq_in_ostream_offsets lineno offset last_offset last_obj xref sstart slen xoff f1 f2 xsize ostream ooffs odisc oidx oid oext out) hdr
+  fq_step (mkfq Fq_in_ostream_offsets lineno offset last_offset last_obj xref sstart slen xoff f1 f2 xsize ostream ooffs odisc oidx oid oext okept out) hdr
   = inl (mkfq Fq_in_ostream_outer (lineno + 1) (offset + fq_len hdr) offset (last_obj + 1) (FqX1 offset :: xref) offset slen xoff f1 f2 xsize
-              (hdr :: ostream) ooffs odisc oidx oid oext out).
+              (hdr :: ostream) ooffs odisc oidx oid oext okept out).
 Proof.
-  intros hdr d lineno offset last_offset last_obj xref sstart slen xoff f1 f2 xsize ostream ooffs odisc oidx oid oext out Hh Hv Hmax.
+  intros hdr d lineno offset last_offset last_obj xref sstart slen xoff f1 f2 xsize ostream ooffs odisc oidx oid oext okept out Hh Hv Hmax.
   unfold fq_step. fqsimp. rewrite Hh. unfold fq_check_obj_id. fqsimp. rewrite Hv.
   destruct (2147483647 <? last_obj + 1) eqn:E1; [apply Z.ltb_lt in E1; lia|].
   rewrite Z.eqb_refl. reflexivity.
 Qed.
 
-Lemma fq_step_ostream_endstream : forall lineno offset last_offset last_obj xref sstart slen xoff f1 f2 xsize ostream ooffs odisc oidx oid oext out,
-  fq_step (mkfq Fq_in_ostream_obj lineno offset last_offset last_obj xref sstart slen xoff f1 f2 xsize ostream ooffs odisc oidx oid oext out) fqk_endstream_nl
+Lemma fq_step_ostream_endstream : forall lineno offset last_offset last_obj xref sstart slen xoff f1 f2 xsize ostream ooffs odisc oidx oid oext okept out,
+  fq_step (mkfq Fq_in_ostream_obj lineno offset last_offset last_obj xref sstart slen xoff f1 f2 xsize ostream ooffs odisc oidx oid oext okept out) fqk_endstream_nl
   = match fq_write_ostream (mkfq Fq_in_ostream_obj (lineno + 1) (offset + fq_len fqk_endstream_nl) offset last_obj xref sstart (offset - sstart) xoff f1 f2 xsize
-                                 (fqk_endstream_nl :: ostream) ooffs odisc oidx oid oext out) with
+                                 (fqk_endstream_nl :: ostream) ooffs odisc oidx oid oext okept out) with
     | inl s2 => inl (fq_set_st s2 Fq_in_obj)
     | inr e => inr e
     end.
@@ -946,10 +962,10 @@ Qed.
 
 (* THE OBJECT-STREAM THEOREM: /Type /ObjStm line, old dictionary text, "stream", old pair lines, members (comment
    line, first line, further lines), "endstream" |-> rebuilt dictionary (/Length = pairs + members, /N, /First = pairs +
-   first comment, /Extends kept), "stream", one pair per member (number, position relative to the first member's text),
+   first comment, /Extends kept, then every other line of the old dictionary text that is not /Length /N /First or ">>"), "stream", one pair per member (number, position relative to the first member's text),
    the members verbatim, "endstream"; offsets stay exact; members get type-2 entries (this stream, 0..n-1) *)
 Lemma fixqdf_object_stream_lemma : forall s tyline dict junk m ms,
-  q_st s = Fq_in_obj -> q_ostream s = [] -> q_ooffs s = [] -> q_odisc s = [] -> q_oidx s = 0 -> q_oext s = [] ->
+  q_st s = Fq_in_obj -> q_ostream s = [] -> q_ooffs s = [] -> q_odisc s = [] -> q_oidx s = 0 -> q_oext s = [] -> q_okept s = [] ->
   fq_eqb tyline fqk_stream_nl = false -> fq_eqb tyline fqk_endobj_nl = false -> fq_is_type_line tyline fqk_type_objstm = true ->
   Forall (fun l => fq_eqb l fqk_stream_nl = false) dict ->
   Forall (fun l => fq_match_ostream_obj l = None) junk ->
@@ -964,7 +980,7 @@ Lemma fixqdf_object_stream_lemma : forall s tyline dict junk m ms,
       fqk_length_sp ++ fq_dec (fq_len body + fq_len pairs) ++ fqk_nl ++
       fqk_N_sp ++ fq_dec (Z.of_nat (length (m :: ms))) ++ fqk_nl ++
       fqk_first_sp ++ fq_dec (fq_len (m_hdr m) + fq_len pairs) ++ fqk_nl ++
-      (match ext with [] => [] | e => fqk_extends_key ++ e ++ fqk_nl end) ++ fqk_dict_end in
+      (match ext with [] => [] | e => fqk_extends_key ++ e ++ fqk_nl end) ++ concat (fq_kept_of dict) ++ fqk_dict_end in
   exists s',
     fq_run s ([tyline] ++ dict ++ [fqk_stream_nl] ++ junk ++ members ++ [fqk_endstream_nl]) = inl s' /\
     q_st s' = Fq_in_obj /\
@@ -972,19 +988,19 @@ Lemma fixqdf_object_stream_lemma : forall s tyline dict junk m ms,
     q_offset s' - q_offset s = fq_len (fq_flatten (q_out s')) - fq_len (fq_flatten (q_out s)) /\
     q_xref s' = fq_x2_entries (q_last_obj s) 0 (length (m :: ms)) ++ q_xref s /\
     q_last_obj s' = q_last_obj s + Z.of_nat (length (m :: ms)) /\
-    q_ostream s' = [] /\ q_ooffs s' = [] /\ q_odisc s' = [] /\ q_oidx s' = 0 /\ q_oext s' = [].
+    q_ostream s' = [] /\ q_ooffs s' = [] /\ q_odisc s' = [] /\ q_oidx s' = 0 /\ q_oext s' = [] /\ q_okept s' = [].
 Proof.
-  intros s tyline dict junk m ms Hst Ho1 Ho2 Ho3 Ho4 Ho5 Ht1 Ht2 Ht3 Hdict Hjunk Hok Hmax members body pos pairs ext new_dict.
-  destruct s as [st lineno offset last_offset last_obj xref sstart slen xoff f1 f2 xsize ostream ooffs odisc oidx oid oext out].
-  cbn [q_st q_last_obj q_out q_offset q_xref q_ostream q_ooffs q_odisc q_oidx q_oext] in *. subst st ostream ooffs odisc oidx oext.
+  intros s tyline dict junk m ms Hst Ho1 Ho2 Ho3 Ho4 Ho5 Ho6 Ht1 Ht2 Ht3 Hdict Hjunk Hok Hmax members body pos pairs ext new_dict.
+  destruct s as [st lineno offset last_offset last_obj xref sstart slen xoff f1 f2 xsize ostream ooffs odisc oidx oid oext okept out].
+  cbn [q_st q_last_obj q_out q_offset q_xref q_ostream q_ooffs q_odisc q_oidx q_oext q_okept] in *. subst st ostream ooffs odisc oidx oext okept.
   cbn [app]. cbn [fq_run]. rewrite fq_step_objstm_type_line by assumption.
   rewrite fq_run_app.
-  match goal with |- context [fq_run (mkfq Fq_in_ostream_dict ?a ?b ?c ?d ?e ?f ?g ?h ?i ?j ?k ?l ?m0 ?n ?o ?p ?q ?r) dict] =>
-    destruct (fq_ostream_dict_loop dict a b c d e f g h i j k l m0 n o p q r Hdict) as [ln1 [lo1 Hrun1]] end.
+  match goal with |- context [fq_run (mkfq Fq_in_ostream_dict ?a ?b ?c ?d ?e ?f ?g ?h ?i ?j ?k ?l ?m0 ?n ?o ?p ?q ?r ?r2) dict] =>
+    destruct (fq_ostream_dict_loop dict a b c d e f g h i j k l m0 n o p q r r2 Hdict) as [ln1 [lo1 Hrun1]] end.
   rewrite Hrun1. cbn [app]. cbn [fq_run]. rewrite fq_step_ostream_stream_kw.
   rewrite fq_run_app.
-  match goal with |- context [fq_run (mkfq Fq_in_ostream_offsets ?a ?b ?c ?d ?e ?f ?g ?h ?i ?j ?k ?l ?m0 ?n ?o ?p ?q ?r) junk] =>
-    destruct (fq_ostream_junk_loop junk a b c d e f g h i j k l m0 n o p q r Hjunk) as [ln2 [lo2 Hrun2]] end.
+  match goal with |- context [fq_run (mkfq Fq_in_ostream_offsets ?a ?b ?c ?d ?e ?f ?g ?h ?i ?j ?k ?l ?m0 ?n ?o ?p ?q ?r ?r2) junk] =>
+    destruct (fq_ostream_junk_loop junk a b c d e f g h i j k l m0 n o p q r r2 Hjunk) as [ln2 [lo2 Hrun2]] end.
   rewrite Hrun2.
   rewrite fq_run_app.
   destruct Hok as [Hh [Hv [Hrest Hoks]]]. cbn [length] in Hmax.
@@ -992,16 +1008,18 @@ Proof.
   rewrite (fq_step_first_member_header (m_hdr m) (m_digits m)) by (try assumption; lia).
   cbn [fq_run]. rewrite fq_step_member_first.
   rewrite fq_run_app.
-  match goal with |- context [fq_run (mkfq Fq_in_ostream_obj ?a ?b ?c ?d ?e ?f ?g ?h ?i ?j ?k ?l ?m0 ?n ?o ?p ?q ?r) (m_rest m)] =>
-    destruct (fq_member_rest_loop f g h i j k n p q r (m_rest m) a b c d e l m0 o Hrest) as [ln3 [lo3 Hrun3]] end.
+  match goal with |- context [fq_run (mkfq Fq_in_ostream_obj ?a ?b ?c ?d ?e ?f ?g ?h ?i ?j ?k ?l ?m0 ?n ?o ?p ?q ?r ?r2) (m_rest m)] =>
+    destruct (fq_member_rest_loop f g h i j k n p q r r2 (m_rest m) a b c d e l m0 o Hrest) as [ln3 [lo3 Hrun3]] end.
   rewrite Hrun3.
   assert (Hmax2 : last_obj + 1 + Z.of_nat (length ms) <= 2147483647) by lia.
-  match goal with |- context [fq_run (mkfq Fq_in_ostream_obj ?a ?b ?c ?d ?e ?f ?g ?h ?i ?j ?k ?l ?m0 ?n ?o ?p ?q ?r) (concat (map m_lines ms))] =>
-    destruct (fq_members_loop f g h i j k n p q r ms a b c d e l m0 o Hoks Hmax2) as [ln4 [lo4 Hrun4]] end.
+  match goal with |- context [fq_run (mkfq Fq_in_ostream_obj ?a ?b ?c ?d ?e ?f ?g ?h ?i ?j ?k ?l ?m0 ?n ?o ?p ?q ?r ?r2) (concat (map m_lines ms))] =>
+    destruct (fq_members_loop f g h i j k n p q r r2 ms a b c d e l m0 o Hoks Hmax2) as [ln4 [lo4 Hrun4]] end.
   rewrite Hrun4.
   cbn [fq_run]. rewrite fq_step_ostream_endstream.
   set (O1 := offset + fq_len tyline + fq_len (concat dict) + fq_len fqk_stream_nl + fq_len (concat junk)) in *.
-  unfold fq_write_ostream. fqsimp. rewrite rev'_rev.
+  unfold fq_write_ostream. fqsimp.
+  rewrite (app_nil_r (rev (fq_kept_of dict))), (rev'_rev (rev (fq_kept_of dict))), (rev_involutive (fq_kept_of dict)).
+  rewrite rev'_rev.
   rewrite !rev_app_distr, rev_involutive. cbn [rev app].
   replace (O1 + fq_len (m_hdr m) - O1) with (fq_len (m_hdr m)) by lia.
   assert (Hpos : fq_len (m_hdr m) :: m_positions (O1 + fq_len (m_hdr m) + fq_len (m_first m) + fq_len (concat (m_rest m)) - O1) ms = pos).
@@ -1221,7 +1239,7 @@ Definition c17_ex_member : fq_member :=
 
 Lemma fixqdf_object_stream_example_lemma :
   q_st c17_ex_state = Fq_in_obj /\ q_ostream c17_ex_state = [] /\ q_ooffs c17_ex_state = [] /\ q_odisc c17_ex_state = [] /\
-  q_oidx c17_ex_state = 0 /\ q_oext c17_ex_state = [] /\
+  q_oidx c17_ex_state = 0 /\ q_oext c17_ex_state = [] /\ q_okept c17_ex_state = [] /\
   fq_eqb c17_l_type fqk_stream_nl = false /\ fq_eqb c17_l_type fqk_endobj_nl = false /\
   fq_is_type_line c17_l_type fqk_type_objstm = true /\
   Forall (fun l => fq_eqb l fqk_stream_nl = false) [c17_l_olddict; c17_l_close] /\
